@@ -37,6 +37,7 @@ from translate import c08_quirks
 KF_LEAK = 'activity-nested-params-leak'
 KF_WALRUS = 'activity-walrus-in-comprehension'
 KF_FREE = 'activity-free-vars-name-based'
+KF_CUT = 'activity-lambda-in-annotation-ends-pass'
 COMPS = ('listcomp', 'setcomp', 'dictcomp', 'genexpr')
 
 
@@ -148,6 +149,48 @@ def _inside_inner_comp(root, name_node):
                 return r
         return None
     return bool(rec(root, False))
+
+
+_CUT_ACTIVE = {}
+
+
+def cut_active():
+    """does a lambda inside a parameter annotation end the annotation pass of the enclosing def (known finding
+    activity-lambda-in-annotation-ends-pass)?  Measured on the implementation, so that the finding explains nothing
+    once the behaviour is gone."""
+    if vlib.REPO not in _CUT_ACTIVE:
+        from malt.pyct import anno
+        from malt.pyct.static_analysis.annos import NodeAnno
+        try:
+            n = X.analyze('def f():\n    def g(a: (lambda: 0), b):\n        pass\n')
+            sc = anno.getanno(n, NodeAnno.ARGS_AND_BODY_SCOPE)
+            _CUT_ACTIVE[vlib.REPO] = 'b' in simple(sc.bound)
+        except Exception:   # noqa
+            _CUT_ACTIVE[vlib.REPO] = False
+    return _CUT_ACTIVE[vlib.REPO]
+
+
+def annotation_pass_cut(d):
+    """def d: the parameters (declaration order) that follow the first parameter whose annotation contains a lambda.
+    -> (their names, the names their annotations mention, ids of the lambdas inside their annotations)"""
+    ps = fn_params(d)
+    for i, p in enumerate(ps):
+        if p.annotation is not None and any(isinstance(x, ast.Lambda) for x in ast.walk(p.annotation)):
+            later = ps[i + 1:]
+            names = set(q.arg for q in later)
+            mentioned = set()
+            lams = set()
+            for q in later:
+                if q.annotation is not None:
+                    for x in ast.walk(q.annotation):
+                        if isinstance(x, ast.Name):
+                            mentioned.add(x.id)
+                        elif isinstance(x, ast.arg):
+                            mentioned.add(x.arg)
+                        elif isinstance(x, ast.Lambda):
+                            lams.add(id(x))
+            return names, mentioned, lams
+    return set(), set(), set()
 
 
 def nested_param_names(fn):
@@ -306,6 +349,19 @@ def oracle_static(src, node, quirks):
     for c in ast.walk(node):
         if isinstance(c, ast.ClassDef):
             in_class.update(id(x) for x in ast.walk(c))
+    # known finding activity-lambda-in-annotation-ends-pass: per def, the parameters after the first one whose
+    # annotation holds a lambda are declared in the defining block and their annotations are never analysed
+    cut = {}
+    unvisited = set()
+    if cut_active():
+        for d in ast.walk(node):
+            if isinstance(d, ast.FunctionDef):
+                names, mentioned, lams = annotation_pass_cut(d)
+                if names:
+                    cut[id(d)] = names | mentioned
+                    for p in fn_params(d):
+                        if p.arg in names and p.annotation is not None:
+                            unvisited.update(id(x) for x in ast.walk(p.annotation))
     for fn in fns:
         m = match_functions([fn], src)
         if m is None:
@@ -314,9 +370,18 @@ def oracle_static(src, node, quirks):
         sc = anno.getanno(fn, NodeAnno.ARGS_AND_BODY_SCOPE, default=None)
         asc = anno.getanno(fn.args, anno.Static.SCOPE, default=None)
         where = '%s at line %d' % (getattr(fn, 'name', 'lambda'), fn.lineno)
+        if (sc is None or asc is None) and id(fn) in unvisited:
+            known.add(KF_CUT)
+            continue
         if sc is None or asc is None:
             failures.append(('scope annotation missing', where))
             continue
+        cut_names = set()
+        for b, _ in block_walk(fn):
+            cut_names |= cut.get(id(b), set())
+        cut_deep = set(cut_names)
+        for b in nested_blocks(fn):
+            cut_deep |= cut.get(id(b), set())
         ex = exempt_names(fn)
         declg = simple(sc.globals)
         decln = simple(sc.nonlocals)
@@ -329,6 +394,9 @@ def oracle_static(src, node, quirks):
         if missing and missing <= walrus_in_comp_names(fn):
             known.add(KF_WALRUS)
             missing = set()
+        if extra and extra <= cut_names:
+            known.add(KF_CUT)
+            extra = set()
         if extra or missing:
             failures.append(('bound locals differ from CPython', '%s: analysis-only %s, CPython-only %s' % (where, sorted(extra), sorted(missing))))
         s_declg = set(s.get_name() for s in t.get_symbols() if s.is_declared_global())
@@ -369,6 +437,8 @@ def oracle_static(src, node, quirks):
                 known.add(KF_LEAK)
             elif nme in w_all:
                 known.add(KF_WALRUS)
+            elif nme in cut_deep:
+                known.add(KF_CUT)
             elif nme in name_based:
                 known.add(KF_FREE)
             else:
